@@ -290,6 +290,13 @@ class Sym:
         ca, cb = _const_of(a), _const_of(b)
         if ca is not None and cb is not None:
             return pf(ca, cb)
+        if CUR is not None and CUR.mode == 'ABSTRACT':
+            # rootF_n(t) compared with a non-negative constant c is exactly t compared with c^n (keeps the abstraction honest on thresholds)
+            ra, rb = _root_arg(a), _root_arg(b)
+            if ra is not None and cb is not None and cb >= 0:
+                return SymBool(f(ra[1], z3.RealVal(cb ** ra[0])))
+            if rb is not None and ca is not None and ca >= 0:
+                return SymBool(f(z3.RealVal(ca ** rb[0]), rb[1]))
         return SymBool(f(a, b))
 
     def __lt__(self, o):
@@ -441,6 +448,15 @@ def _rf_div(x, o):
         num = -num
         den = -b if da is None else _mul(da, -b)
     return _rf_norm(num, den)
+
+
+def _root_arg(t):
+    """(n, argument) if t is an application rootF_n(argument), else None"""
+    if z3.is_app(t) and t.num_args() == 1:
+        nm = t.decl().name()
+        if nm.startswith('rootF_'):
+            return int(nm[6:]), t.arg(0)
+    return None
 
 
 def _ipow(s, e):
